@@ -15,14 +15,16 @@ Ltac gen_prod a b :=
 Ltac subst_vars := repeat match goal with H : ?x = ?y |- _ => is_var x; first [is_var y | constr_eq y 0]; subst x end.
 Ltac ranges := repeat match goal with |- (_ <= _ < _) /\ _ => split; [first [assumption | lia]|] end; first [assumption | lia].
 
-Theorem scalar8x32_mul_512_correct a0 a1 a2 a3 a4 a5 a6 a7 b0 b1 b2 b3 b4 b5 b6 b7 :
+Theorem scalar8x32_mul_512_wp a0 a1 a2 a3 a4 a5 a6 a7 b0 b1 b2 b3 b4 b5 b6 b7 :
   0 <= a0 < 2^32 -> 0 <= a1 < 2^32 -> 0 <= a2 < 2^32 -> 0 <= a3 < 2^32 -> 0 <= a4 < 2^32 -> 0 <= a5 < 2^32 -> 0 <= a6 < 2^32 -> 0 <= a7 < 2^32 ->
   0 <= b0 < 2^32 -> 0 <= b1 < 2^32 -> 0 <= b2 < 2^32 -> 0 <= b3 < 2^32 -> 0 <= b4 < 2^32 -> 0 <= b5 < 2^32 -> 0 <= b6 < 2^32 -> 0 <= b7 < 2^32 ->
-  scalar8x32_mul_512_k a0 a1 a2 a3 a4 a5 a6 a7 b0 b1 b2 b3 b4 b5 b6 b7 (fun l0 l1 l2 l3 l4 l5 l6 l7 l8 l9 l10 l11 l12 l13 l14 l15 =>
+  forall Q : Z -> Z -> Z -> Z -> Z -> Z -> Z -> Z -> Z -> Z -> Z -> Z -> Z -> Z -> Z -> Z -> Prop,
+  (forall l0 l1 l2 l3 l4 l5 l6 l7 l8 l9 l10 l11 l12 l13 l14 l15,
     (0 <= l0 < 2^32 /\ 0 <= l1 < 2^32 /\ 0 <= l2 < 2^32 /\ 0 <= l3 < 2^32 /\ 0 <= l4 < 2^32 /\ 0 <= l5 < 2^32 /\ 0 <= l6 < 2^32 /\ 0 <= l7 < 2^32 /\ 0 <= l8 < 2^32 /\ 0 <= l9 < 2^32 /\ 0 <= l10 < 2^32 /\ 0 <= l11 < 2^32 /\ 0 <= l12 < 2^32 /\ 0 <= l13 < 2^32 /\ 0 <= l14 < 2^32 /\ 0 <= l15 < 2^32) /\
-    val16w l0 l1 l2 l3 l4 l5 l6 l7 l8 l9 l10 l11 l12 l13 l14 l15 = val8w a0 a1 a2 a3 a4 a5 a6 a7 * val8w b0 b1 b2 b3 b4 b5 b6 b7).
+    val16w l0 l1 l2 l3 l4 l5 l6 l7 l8 l9 l10 l11 l12 l13 l14 l15 = val8w a0 a1 a2 a3 a4 a5 a6 a7 * val8w b0 b1 b2 b3 b4 b5 b6 b7 -> Q l0 l1 l2 l3 l4 l5 l6 l7 l8 l9 l10 l11 l12 l13 l14 l15) ->
+  scalar8x32_mul_512_k a0 a1 a2 a3 a4 a5 a6 a7 b0 b1 b2 b3 b4 b5 b6 b7 Q.
 Proof.
-  intros Ha0 Ha1 Ha2 Ha3 Ha4 Ha5 Ha6 Ha7 Hb0 Hb1 Hb2 Hb3 Hb4 Hb5 Hb6 Hb7.
+  intros Ha0 Ha1 Ha2 Ha3 Ha4 Ha5 Ha6 Ha7 Hb0 Hb1 Hb2 Hb3 Hb4 Hb5 Hb6 Hb7 Q HQ.
   assert (Hprod : val8w a0 a1 a2 a3 a4 a5 a6 a7 * val8w b0 b1 b2 b3 b4 b5 b6 b7 =
     (a0*b0)
     + (a0*b1 + a1*b0) * 2^32
@@ -39,21 +41,24 @@ Proof.
     + (a5*b7 + a6*b6 + a7*b5) * 2^384
     + (a6*b7 + a7*b6) * 2^416
     + (a7*b7) * 2^448) by (unfold val8w; ring).
-  rewrite Hprod. clear Hprod.
+  rewrite Hprod in HQ. clear Hprod. revert HQ.
   unfold scalar8x32_mul_512_k.
   gen_prod a0 b0. gen_prod a0 b1. gen_prod a0 b2. gen_prod a0 b3. gen_prod a0 b4. gen_prod a0 b5. gen_prod a0 b6. gen_prod a0 b7. gen_prod a1 b0. gen_prod a1 b1. gen_prod a1 b2. gen_prod a1 b3. gen_prod a1 b4. gen_prod a1 b5. gen_prod a1 b6. gen_prod a1 b7. gen_prod a2 b0. gen_prod a2 b1. gen_prod a2 b2. gen_prod a2 b3. gen_prod a2 b4. gen_prod a2 b5. gen_prod a2 b6. gen_prod a2 b7. gen_prod a3 b0. gen_prod a3 b1. gen_prod a3 b2. gen_prod a3 b3. gen_prod a3 b4. gen_prod a3 b5. gen_prod a3 b6. gen_prod a3 b7. gen_prod a4 b0. gen_prod a4 b1. gen_prod a4 b2. gen_prod a4 b3. gen_prod a4 b4. gen_prod a4 b5. gen_prod a4 b6. gen_prod a4 b7. gen_prod a5 b0. gen_prod a5 b1. gen_prod a5 b2. gen_prod a5 b3. gen_prod a5 b4. gen_prod a5 b5. gen_prod a5 b6. gen_prod a5 b7. gen_prod a6 b0. gen_prod a6 b1. gen_prod a6 b2. gen_prod a6 b3. gen_prod a6 b4. gen_prod a6 b5. gen_prod a6 b6. gen_prod a6 b7. gen_prod a7 b0. gen_prod a7 b1. gen_prod a7 b2. gen_prod a7 b3. gen_prod a7 b4. gen_prod a7 b5. gen_prod a7 b6. gen_prod a7 b7.
   clear Ha0 Ha1 Ha2 Ha3 Ha4 Ha5 Ha6 Ha7 Hb0 Hb1 Hb2 Hb3 Hb4 Hb5 Hb6 Hb7.
+  intro HQ. hide HQ.
   repeat first [ muladd32_step | muladd_fast32_step | keep_step ].
-  cbv beta. unfold val16w. subst_vars. split; [ranges|]. lia.
+  cbv beta. unhide HQ. apply HQ. clear HQ. unfold val16w. subst_vars. split; [ranges|]. lia.
 Qed.
 
-Theorem scalar8x32_sqr_512_correct a0 a1 a2 a3 a4 a5 a6 a7 :
+Theorem scalar8x32_sqr_512_wp a0 a1 a2 a3 a4 a5 a6 a7 :
   0 <= a0 < 2^32 -> 0 <= a1 < 2^32 -> 0 <= a2 < 2^32 -> 0 <= a3 < 2^32 -> 0 <= a4 < 2^32 -> 0 <= a5 < 2^32 -> 0 <= a6 < 2^32 -> 0 <= a7 < 2^32 ->
-  scalar8x32_sqr_512_k a0 a1 a2 a3 a4 a5 a6 a7 (fun l0 l1 l2 l3 l4 l5 l6 l7 l8 l9 l10 l11 l12 l13 l14 l15 =>
+  forall Q : Z -> Z -> Z -> Z -> Z -> Z -> Z -> Z -> Z -> Z -> Z -> Z -> Z -> Z -> Z -> Z -> Prop,
+  (forall l0 l1 l2 l3 l4 l5 l6 l7 l8 l9 l10 l11 l12 l13 l14 l15,
     (0 <= l0 < 2^32 /\ 0 <= l1 < 2^32 /\ 0 <= l2 < 2^32 /\ 0 <= l3 < 2^32 /\ 0 <= l4 < 2^32 /\ 0 <= l5 < 2^32 /\ 0 <= l6 < 2^32 /\ 0 <= l7 < 2^32 /\ 0 <= l8 < 2^32 /\ 0 <= l9 < 2^32 /\ 0 <= l10 < 2^32 /\ 0 <= l11 < 2^32 /\ 0 <= l12 < 2^32 /\ 0 <= l13 < 2^32 /\ 0 <= l14 < 2^32 /\ 0 <= l15 < 2^32) /\
-    val16w l0 l1 l2 l3 l4 l5 l6 l7 l8 l9 l10 l11 l12 l13 l14 l15 = val8w a0 a1 a2 a3 a4 a5 a6 a7 * val8w a0 a1 a2 a3 a4 a5 a6 a7).
+    val16w l0 l1 l2 l3 l4 l5 l6 l7 l8 l9 l10 l11 l12 l13 l14 l15 = val8w a0 a1 a2 a3 a4 a5 a6 a7 * val8w a0 a1 a2 a3 a4 a5 a6 a7 -> Q l0 l1 l2 l3 l4 l5 l6 l7 l8 l9 l10 l11 l12 l13 l14 l15) ->
+  scalar8x32_sqr_512_k a0 a1 a2 a3 a4 a5 a6 a7 Q.
 Proof.
-  intros Ha0 Ha1 Ha2 Ha3 Ha4 Ha5 Ha6 Ha7.
+  intros Ha0 Ha1 Ha2 Ha3 Ha4 Ha5 Ha6 Ha7 Q HQ.
   assert (Hprod : val8w a0 a1 a2 a3 a4 a5 a6 a7 * val8w a0 a1 a2 a3 a4 a5 a6 a7 =
     (a0*a0)
     + (2*(a0*a1)) * 2^32
@@ -70,10 +75,30 @@ Proof.
     + (2*(a5*a7) + a6*a6) * 2^384
     + (2*(a6*a7)) * 2^416
     + (a7*a7) * 2^448) by (unfold val8w; ring).
-  rewrite Hprod. clear Hprod.
+  rewrite Hprod in HQ. clear Hprod. revert HQ.
   unfold scalar8x32_sqr_512_k.
   gen_prod a0 a0. gen_prod a0 a1. gen_prod a0 a2. gen_prod a0 a3. gen_prod a0 a4. gen_prod a0 a5. gen_prod a0 a6. gen_prod a0 a7. gen_prod a1 a1. gen_prod a1 a2. gen_prod a1 a3. gen_prod a1 a4. gen_prod a1 a5. gen_prod a1 a6. gen_prod a1 a7. gen_prod a2 a2. gen_prod a2 a3. gen_prod a2 a4. gen_prod a2 a5. gen_prod a2 a6. gen_prod a2 a7. gen_prod a3 a3. gen_prod a3 a4. gen_prod a3 a5. gen_prod a3 a6. gen_prod a3 a7. gen_prod a4 a4. gen_prod a4 a5. gen_prod a4 a6. gen_prod a4 a7. gen_prod a5 a5. gen_prod a5 a6. gen_prod a5 a7. gen_prod a6 a6. gen_prod a6 a7. gen_prod a7 a7.
   clear Ha0 Ha1 Ha2 Ha3 Ha4 Ha5 Ha6 Ha7.
+  intro HQ. hide HQ.
   repeat first [ muladd2_32_step | muladd32_step | muladd_fast32_step | keep_step ].
-  cbv beta. unfold val16w. subst_vars. split; [ranges|]. lia.
+  cbv beta. unhide HQ. apply HQ. clear HQ. unfold val16w. subst_vars. split; [ranges|]. lia.
+Qed.
+
+Theorem scalar8x32_mul_512_correct a0 a1 a2 a3 a4 a5 a6 a7 b0 b1 b2 b3 b4 b5 b6 b7 :
+  0 <= a0 < 2^32 -> 0 <= a1 < 2^32 -> 0 <= a2 < 2^32 -> 0 <= a3 < 2^32 -> 0 <= a4 < 2^32 -> 0 <= a5 < 2^32 -> 0 <= a6 < 2^32 -> 0 <= a7 < 2^32 ->
+  0 <= b0 < 2^32 -> 0 <= b1 < 2^32 -> 0 <= b2 < 2^32 -> 0 <= b3 < 2^32 -> 0 <= b4 < 2^32 -> 0 <= b5 < 2^32 -> 0 <= b6 < 2^32 -> 0 <= b7 < 2^32 ->
+  scalar8x32_mul_512_k a0 a1 a2 a3 a4 a5 a6 a7 b0 b1 b2 b3 b4 b5 b6 b7 (fun l0 l1 l2 l3 l4 l5 l6 l7 l8 l9 l10 l11 l12 l13 l14 l15 =>
+    (0 <= l0 < 2^32 /\ 0 <= l1 < 2^32 /\ 0 <= l2 < 2^32 /\ 0 <= l3 < 2^32 /\ 0 <= l4 < 2^32 /\ 0 <= l5 < 2^32 /\ 0 <= l6 < 2^32 /\ 0 <= l7 < 2^32 /\ 0 <= l8 < 2^32 /\ 0 <= l9 < 2^32 /\ 0 <= l10 < 2^32 /\ 0 <= l11 < 2^32 /\ 0 <= l12 < 2^32 /\ 0 <= l13 < 2^32 /\ 0 <= l14 < 2^32 /\ 0 <= l15 < 2^32) /\
+    val16w l0 l1 l2 l3 l4 l5 l6 l7 l8 l9 l10 l11 l12 l13 l14 l15 = val8w a0 a1 a2 a3 a4 a5 a6 a7 * val8w b0 b1 b2 b3 b4 b5 b6 b7).
+Proof.
+  intros. apply scalar8x32_mul_512_wp; try assumption. intros l0 l1 l2 l3 l4 l5 l6 l7 l8 l9 l10 l11 l12 l13 l14 l15 HP. exact HP.
+Qed.
+
+Theorem scalar8x32_sqr_512_correct a0 a1 a2 a3 a4 a5 a6 a7 :
+  0 <= a0 < 2^32 -> 0 <= a1 < 2^32 -> 0 <= a2 < 2^32 -> 0 <= a3 < 2^32 -> 0 <= a4 < 2^32 -> 0 <= a5 < 2^32 -> 0 <= a6 < 2^32 -> 0 <= a7 < 2^32 ->
+  scalar8x32_sqr_512_k a0 a1 a2 a3 a4 a5 a6 a7 (fun l0 l1 l2 l3 l4 l5 l6 l7 l8 l9 l10 l11 l12 l13 l14 l15 =>
+    (0 <= l0 < 2^32 /\ 0 <= l1 < 2^32 /\ 0 <= l2 < 2^32 /\ 0 <= l3 < 2^32 /\ 0 <= l4 < 2^32 /\ 0 <= l5 < 2^32 /\ 0 <= l6 < 2^32 /\ 0 <= l7 < 2^32 /\ 0 <= l8 < 2^32 /\ 0 <= l9 < 2^32 /\ 0 <= l10 < 2^32 /\ 0 <= l11 < 2^32 /\ 0 <= l12 < 2^32 /\ 0 <= l13 < 2^32 /\ 0 <= l14 < 2^32 /\ 0 <= l15 < 2^32) /\
+    val16w l0 l1 l2 l3 l4 l5 l6 l7 l8 l9 l10 l11 l12 l13 l14 l15 = val8w a0 a1 a2 a3 a4 a5 a6 a7 * val8w a0 a1 a2 a3 a4 a5 a6 a7).
+Proof.
+  intros. apply scalar8x32_sqr_512_wp; try assumption. intros l0 l1 l2 l3 l4 l5 l6 l7 l8 l9 l10 l11 l12 l13 l14 l15 HP. exact HP.
 Qed.
